@@ -54,9 +54,20 @@ def variantLists : Str → Option (List (List Char))
     | some l, some ls => some (l :: ls)
     | _, _ => none
 
-/-- `variants.AllVariantsIUPAC`; `none` = error.  (For the empty input Go's `cartRune()`
-returns one empty product, i.e. `[""]`, which `cart []` reproduces.) -/
+def maxInt32 : Nat := 2147483647
+
+/-- the overflow guard of AllVariantsIUPAC (since fix fce67c5): the running product of the numbers of
+choices, refused as soon as `count > MaxInt32 / len(choices)`; `true` = every step passed -/
+def countGuard : List (List Char) → Nat → Bool
+  | [], _ => true
+  | l :: ls, n => if n > maxInt32 / l.length then false else countGuard ls (n * l.length)
+
+/-- `variants.AllVariantsIUPAC`; `none` = error (an unsupported letter, or too many variants to
+enumerate).  (For the empty input Go's `cartRune()` returns one empty product, i.e. `[""]`, which
+`cart []` reproduces.) -/
 def allVariants (s : Str) : Option (List Str) :=
-  (variantLists s).map cart
+  match variantLists s with
+  | none => none
+  | some ls => if countGuard ls 1 then some (cart ls) else none
 
 end PolyVerif.Transform
